@@ -90,7 +90,7 @@ pub struct Obj {
 }
 impl fmt::Display for Obj {
     fn fmt(&self, f: &mut fmt::Formatter<'_>) -> fmt::Result {
-        f.write_str(&self.display)
+        write_mixed(f, &self.display)
     }
 }
 impl fmt::Debug for Obj {
@@ -117,7 +117,7 @@ impl fmt::Debug for Obj {
             hook(&self.debug);
             return f.write_str(&self.debug[cut..]);
         }
-        f.write_str(&self.debug)
+        write_mixed(f, &self.debug)
     }
 }
 
@@ -824,7 +824,37 @@ impl GenCfg {
 }
 
 const FIELD_NAMES: &[&str] = &["a", "b", "c", "message", "x", "error", "len", "id", "ключ", "f.g", "r#type", ""];
-const STRS: &[&str] = &["", "x", "hello world", "ключ", "a\nb", "tab\there", "q\"uote", "42", "true", "\u{1F600}", "back\\slash"];
+const STRS: &[&str] = &[
+    "", "x", "hello world", "ключ", "a\nb", "tab\there", "q\"uote", "42", "true", "\u{1F600}", "back\\slash",
+    // longer than any small buffer a renderer may keep on its stack, with characters that `Debug` escapes
+    // (two lengths of different parity: see `write_mixed`)
+    "a long value: the quick brown fox jumps over the lazy dog, then says \"done\" and leaves\ttabbed \u{2014} ok",
+    "a long value: the quick brown fox jumps over the lazy dog, then says \"done\" and leaves\ttabbed \u{2014} ok!",
+];
+
+/// The guest's objects write their text the way real `Debug` / `Display` impls do: in one piece, or a
+/// short piece, a long piece and then single characters (`<str as Debug>`, padding, `{:?}` of chars ..), depending on
+/// the parity of the length.  The text written is the same.
+fn write_mixed(f: &mut fmt::Formatter<'_>, s: &str) -> fmt::Result {
+    use fmt::Write as _;
+    if s.len() % 2 == 0 {
+        return f.write_str(s);
+    }
+    // a short piece, one long piece, then single characters
+    let (mut a, mut b) = (s.len() / 6, s.len() * 5 / 6);
+    while !s.is_char_boundary(a) {
+        a += 1;
+    }
+    while !s.is_char_boundary(b) {
+        b += 1;
+    }
+    f.write_str(&s[..a])?;
+    f.write_str(&s[a..b])?;
+    for ch in s[b..].chars() {
+        f.write_char(ch)?;
+    }
+    Ok(())
+}
 const F64_BITS: &[u64] = &[
     0, 0x8000_0000_0000_0000, 0x3FF0_0000_0000_0000, 0xBFF0_0000_0000_0000, 0x7FF0_0000_0000_0000,
     0xFFF0_0000_0000_0000, 0x7FF8_0000_0000_0000, 0xFFF8_0000_0000_0000, 0x7FF0_0000_0000_0001,
